@@ -111,6 +111,11 @@ def generate(seed, tier):
                 pa.setdefault('encr', ['aes256'])
                 pb.pop('encr', None)
     sc['meta']['neg'] = neg
+    if r.random() < 0.15 and sc['meta'].get('auth') == 'psk':
+        # the responder is a conforming third party (sim/refpeer.py) that selects by ITS preference order, straight or reversed, among what
+        # the daemon offered: the daemon must key the IKE_SA and the CHILD_SAs with exactly the suite the response names
+        workload.to_refpeer(sc, r, {'prefer': r.choice(['mine', 'reversed', 'reversed'])})
+        return sc
     if r.random() < 0.4:
         from sim import byz
         sc['byz'] = {'kind': r.choice(byz.KINDS_C11), 'seed': r.randrange(2 ** 31)}
@@ -123,6 +128,30 @@ def generate(seed, tier):
                     c['integ'] = c['integ'] + ['sha512']
                 c['dh'] = [d for d in c['dh'] if str(d) not in ('14', 'modp2048')] or ['19']
     return sc
+
+
+def judge_installed(w, children, reach):
+    """What is installed IS the chosen suite: algorithm and key length of every NEWSA of a negotiated CHILD_SA are those of the proposal in
+    the response (the suite actually in use must be in both offers, not only the one announced)."""
+    from sim.childcheck import quad, alg
+    names = {2: ('hmac(sha1)', 160), 12: ('hmac(sha256)', 256), 14: ('hmac(sha512)', 512)}
+    idx = {n: newsa_index(node) for n, node in w.nodes.items()}
+    for ch in children:
+        q = quad(w, ch, idx)
+        if q is None:
+            continue
+        for who, rec in zip((f'{ch["x_init"]} outbound', f'{ch["x_resp"]} inbound', f'{ch["x_init"]} inbound', f'{ch["x_resp"]} outbound'), q):
+            if rec is None:
+                continue
+            reach['installed_suites_compared'] = reach.get('installed_suites_compared', 0) + 1
+            c, a = alg(rec, K['XFRMA_ALG_CRYPT']), alg(rec, K['XFRMA_ALG_AUTH'])
+            got = ((c[0], c[1]) if c else None, (a[0], a[1]) if a else None)
+            want = (('cbc(aes)', ch['encr_bits']) if ch['proto'] == R.PROTO_ESP else None, names.get(ch['integ']))
+            if got != want:
+                return ('installed_suite_is_not_the_chosen_one', {'role': who.split()[1], 'which': 'encr' if got[0] != want[0] else 'integ'},
+                        f'{who}: CHILD_SA {ch["spi_init"].hex()}/{ch["spi_resp"].hex()} was negotiated as {want} (response proposal) but the SA '
+                        f'handed to the kernel uses {got}')
+    return None
 
 
 def judge(w, tap, scenario, reach):
@@ -261,28 +290,10 @@ def judge(w, tap, scenario, reach):
             return V('response_not_drawn_from_offer_installed', {'missing_types': str(missing), 'initial': ch['initial']},
                      f'{ch["x_init"]} installed CHILD_SA {ch["spi_init"].hex()}/{ch["spi_resp"].hex()} although the response proposal '
                      f'{sorted(tset(c))} is not drawn from its offer {[sorted(tset(p)) for p in ch["offer"]]} (transform types missing: {missing})')
-    # ---- what is installed IS the chosen suite: algorithm and key length of every NEWSA of a negotiated CHILD_SA are those of the proposal
-    #      in the response (the suite actually in use must be in both offers, not only the one announced)
-    from sim.childcheck import quad, alg
-    from sim.kernel import K
-    names = {2: ('hmac(sha1)', 160), 12: ('hmac(sha256)', 256), 14: ('hmac(sha512)', 512)}
     if not scenario.get('byz'):
-        idx = {n: newsa_index(node) for n, node in w.nodes.items()}
-        for ch in tap.children:
-            q = quad(w, ch, idx)
-            if q is None:
-                continue
-            for who, rec in zip((ch['x_init'] + ' outbound', ch['x_resp'] + ' inbound', ch['x_init'] + ' inbound', ch['x_resp'] + ' outbound'), q):
-                if rec is None:
-                    continue
-                reach['installed_suites_compared'] = reach.get('installed_suites_compared', 0) + 1
-                c, a = alg(rec, K['XFRMA_ALG_CRYPT']), alg(rec, K['XFRMA_ALG_AUTH'])
-                got = ((c[0], c[1]) if c else None, (a[0], a[1]) if a else None)
-                want = (('cbc(aes)', ch['encr_bits']) if ch['proto'] == R.PROTO_ESP else None, names.get(ch['integ']))
-                if got != want:
-                    return V('installed_suite_is_not_the_chosen_one', {'role': who.split()[1], 'which': 'encr' if got[0] != want[0] else 'integ'},
-                             f'{who}: CHILD_SA {ch["spi_init"].hex()}/{ch["spi_resp"].hex()} was negotiated as {want} (response proposal) but the SA '
-                             f'handed to the kernel uses {got}')
+        v = judge_installed(w, tap.children, reach)
+        if v is not None:
+            return V(*v)
     # ---- a refused negotiation installs nothing: every NEWSA belongs to a negotiation the wiretap saw succeed
     ok_spis = {c['spi_init'] for c in tap.children} | {c['spi_resp'] for c in tap.children}
     if not any(s.opaque for s in tap.sessions.values()):
@@ -339,6 +350,8 @@ def run(scenario):
         ctx['cov'] = workload.Coverage(w)
         ctx['tap'] = Wiretap(w, check_reencode=False)
         ctx['reach'] = {}
+        if scenario.get('refpeer'):
+            ctx['peer'] = workload.attach_refpeer(w, scenario)
         if scenario.get('byz'):
             from sim import byz
             from sim.interpose import Interposer
@@ -364,13 +377,28 @@ def run(scenario):
             if v is not None:
                 w.violation(PROP, v[0], v[1], v[2])
                 return
+        if scenario.get('refpeer'):
+            peer, reach = ctx['peer'], ctx['reach']
+            reach['batch.refpeer'] = 1
+            for k_, v_ in peer.counts.items():
+                reach['refpeer.' + k_] = v_
+            reach['refpeer.prefer.' + peer.k['prefer']] = 1
+            for p in peer.problems:
+                if p['kind'] == 'cannot_open_protected_message':
+                    return w.violation(PROP, 'traffic_not_under_the_chosen_suite', {'generation': p['sig'].get('generation'), 'why': p['sig'].get('why')},
+                                       'the reference responder chose (its own preference order) a suite out of the daemon\'s offer, and cannot open what '
+                                       'the daemon sends next under the keys of that suite: ' + p['detail'])
+            v = judge_installed(w, peer.children, reach)
+            if v is not None:
+                w.violation(PROP, *v)
+            return
         judge(w, ctx['tap'], scenario, ctx['reach'])
     ctx['at_end'] = at_end
     w = execute(scenario, setup, ctx)
     reach = ctx.get('reach', {})
     neg = scenario['meta'].get('neg', 'none')
     reach['neg.' + ('none' if neg == 'none' else neg.split('_')[0])] = 1
-    ca, cb = scenario['nodes']['A']['conf']['to-b'], scenario['nodes']['B']['conf']['to-a']
+    ca, cb = scenario['nodes']['A']['conf']['to-b'], (scenario['refpeer']['conf'] if scenario.get('refpeer') else scenario['nodes']['B']['conf'])['to-a']
     multi = any(len(c.get(k, [])) > 1 for c in (ca, cb) for k in ('encr', 'integ', 'prf', 'dh'))
     reach['multi_valued_lists' if multi else 'single_valued_lists'] = 1
     for k in ('encr', 'integ', 'prf', 'dh'):
@@ -384,7 +412,7 @@ def run(scenario):
     judged = reach.get('ike_init_judged', 0) + reach.get('child_judged', 0) + reach.get('ike_rekey_judged', 0)
     st = workload.base_stats(w, ctx['cov'], {'reach': reach, 'nontrivial': judged >= 3})
     import hashlib
-    st['sig'] = hashlib.sha256(repr((configs.suite_signature(scenario['nodes']['A']['conf']), configs.suite_signature(scenario['nodes']['B']['conf']),
+    st['sig'] = hashlib.sha256(repr((configs.suite_signature(scenario['nodes']['A']['conf']), configs.suite_signature((scenario.get('refpeer') or scenario['nodes'].get('B'))['conf']),
                                      [(p.get('encr'), p.get('integ'), p.get('dh'), p.get('ipsec_proto')) for p in ca['protect']],
                                      [(p.get('encr'), p.get('integ'), p.get('dh'), p.get('ipsec_proto')) for p in cb['protect']], neg)).encode()).hexdigest()[:16]
     if scenario.get('seed', 0) % 61 == 0 or w.violations:
